@@ -202,11 +202,21 @@ def Track.fuel (q : Nat) (t : Track) : Nat := ((t.cur * q : Nat) - t.nxt).toNat 
 
 /-! ### Timeline-level functions -/
 
-def TL.find (tl : TL) (tid : Nat) : Option Track := tl.tracks.find? (fun t => t.id == tid)
-def TL.setTrack (tl : TL) (t : Track) : TL :=
-  { tl with tracks := tl.tracks.map (fun u => if u.id == t.id then t else u) }
-def TL.removeTrack (tl : TL) (tid : Nat) : TL :=
-  { tl with tracks := tl.tracks.filter (fun u => ¬ (u.id == tid)) }
+/-- Tracks are Python objects; the model finds them by id (first match; ids are unique in every
+    reachable state, but nothing below relies on that). -/
+def findTrack (tid : Nat) : List Track → Option Track
+  | [] => none
+  | u :: us => if u.id = tid then some u else findTrack tid us
+def setFirst (t : Track) : List Track → List Track
+  | [] => []
+  | u :: us => if u.id = t.id then t :: us else u :: setFirst t us
+def eraseFirst (tid : Nat) : List Track → List Track
+  | [] => []
+  | u :: us => if u.id = tid then us else u :: eraseFirst tid us
+
+def TL.find (tl : TL) (tid : Nat) : Option Track := findTrack tid tl.tracks
+def TL.setTrack (tl : TL) (t : Track) : TL := { tl with tracks := setFirst t tl.tracks }
+def TL.removeTrack (tl : TL) (tid : Nat) : TL := { tl with tracks := eraseFirst tid tl.tracks }
 
 /-- `Timeline._schedule_action` time computation. -/
 def schedTime (q now qz dl : Nat) : Nat :=
@@ -218,17 +228,26 @@ structure OpRes where
   res : Res
   deriving Repr
 
-/-- `Track.update` (shared by `Timeline.schedule` and direct calls). -/
-def TL.updateTrack (tl : TL) (t : Track) (sid : Nat) (qz dl : Option Nat) (count : Option Nat) : TL :=
+/-- `Track.update`: what happens to the track object itself, and the start action queued (if any). -/
+structure UpdRes where
+  t : Track
+  act : Option PAct
+  deriving Repr
+
+def updateCore (tl : TL) (t : Track) (sid : Nat) (qz dl : Option Nat) (count : Option Nat) : UpdRes :=
   let qz' := qz.getD tl.defQz
   let dl' := dl.getD tl.defDl + tl.latency
   let t1 : Track := match count with
     | some c => { t with maxCount := c }
     | none => t
-  if qz' = 0 ∧ dl' = 0 then tl.setTrack (t1.start tl.q sid)
-  else
-    let tl1 := tl.setTrack t1
-    { tl1 with actions := tl1.actions ++ [{ time := schedTime tl.q tl.now qz' dl', tid := t.id, sid := sid }] }
+  if qz' = 0 ∧ dl' = 0 then { t := t1.start tl.q sid, act := none }
+  else { t := t1, act := some { time := schedTime tl.q tl.now qz' dl', tid := t.id, sid := sid } }
+
+/-- `Track.update` on a track that is in the timeline. -/
+def TL.updateTrack (tl : TL) (t : Track) (sid : Nat) (qz dl : Option Nat) (count : Option Nat) : TL :=
+  let r := updateCore tl t sid qz dl count
+  let tl1 := tl.setTrack r.t
+  { tl1 with actions := tl1.actions ++ r.act.toList }
 
 def newTrack (id : Nat) (name : Option Nat) (count : Nat) (rwd : Bool) : Track :=
   { id := id, name := name, sid := 0, pos := 0, started := false, cur := 0, nxt := 0, count := 0,
@@ -239,7 +258,12 @@ def applyOp (tl : TL) : Op → OpRes
   | .schedule sid qz dl count rwd name replace =>
     let existing : Option Track :=
       match name with
-      | some n => if replace then tl.tracks.find? (fun t => t.name == some n) else none
+      | some n =>
+        if replace then
+          match tl.tracks.find? (fun t => t.name == some n) with
+          | some t0 => tl.find t0.id
+          | none => none
+        else none
       | none => none
     match existing with
     | some t =>
@@ -252,9 +276,11 @@ def applyOp (tl : TL) : Op → OpRes
     | none =>
       if tl.maxTracks ≠ 0 ∧ tl.maxTracks ≤ tl.tracks.length then { tl := tl, calls := [], res := .limit }
       else
-        let t := newTrack tl.nextId name (count.getD 0) rwd
-        let tl1 := { tl with tracks := tl.tracks ++ [t], nextId := tl.nextId + 1 }
-        { tl := tl1.updateTrack t sid qz dl none, calls := [], res := .ok }
+        -- Track(...); track.update(params, quantize, delay); tracks.append(track)
+        let r := updateCore tl (newTrack tl.nextId name (count.getD 0) rwd) sid qz dl none
+        { tl := { tl with tracks := tl.tracks ++ [r.t], nextId := tl.nextId + 1,
+                          actions := tl.actions ++ r.act.toList },
+          calls := [], res := .ok }
   | .update tid sid qz dl count =>
     match tl.find tid with
     | some t => { tl := tl.updateTrack t sid qz dl count, calls := [], res := .ok }
@@ -332,6 +358,31 @@ def performEvent (tl : TL) (t : Track) (_dur : Nat) (active : Bool) (k : EvKind)
       -- a StopIteration raised by the callback itself (after its script ran to the end) escapes
       { tl := r.tl, calls := r.calls, stopped := (r.res == .ok && out == .stop), raised := false }
 
+/-- The tail of `Track.tick` once the event (if any) has been performed: a StopIteration marks the
+    track finished if nothing is pending; the local time advances.  The track is looked up again
+    because a callback may have changed or removed it. -/
+def endTick (tl : TL) (tid : Nat) (stopped : Bool) : TL :=
+  match tl.find tid with
+  | none => tl
+  | some t =>
+    tl.setTrack { t with finished := (if stopped then t.finished || t.offs.isEmpty else t.finished),
+                         cur := t.cur + 1 }
+
+/-- `Track.tick` after the pull loop returned `p`. -/
+def afterPull (tl : TL) (tid : Nat) (p : PullRes) : TrackTickRes :=
+  match p.r with
+  | .raised => { tl := tl.setTrack p.t, calls := [], out := .raised }
+  | .diverged => { tl := tl.setTrack p.t, calls := [], out := .diverged }
+  | .stop => { tl := endTick (tl.setTrack p.t) tid true, calls := [], out := .ok }
+  | .ev d a k =>
+    if (performEvent (tl.setTrack p.t) p.t d a k).raised then
+      { tl := (performEvent (tl.setTrack p.t) p.t d a k).tl,
+        calls := (performEvent (tl.setTrack p.t) p.t d a k).calls, out := .raised }
+    else
+      { tl := endTick (performEvent (tl.setTrack p.t) p.t d a k).tl tid
+                (performEvent (tl.setTrack p.t) p.t d a k).stopped,
+        calls := (performEvent (tl.setTrack p.t) p.t d a k).calls, out := .ok }
+
 /-- `Track.tick` (non-interpolating branch) for the track with id `tid`. -/
 def tickTrack (W : World) (tl : TL) (tid : Nat) : TrackTickRes :=
   match tl.find tid with
@@ -339,23 +390,8 @@ def tickTrack (W : World) (tl : TL) (tid : Nat) : TrackTickRes :=
   | some t =>
     if t.started = false then { tl := tl, calls := [], out := .ok }
     else if t.nxt ≤ (t.cur * tl.q : Nat) then
-      let p := Track.pullLoop W tl.q (t.fuel tl.q) t .stop
-      let tl1 := tl.setTrack p.t
-      match p.r with
-      | .raised => { tl := tl1, calls := [], out := .raised }
-      | .diverged => { tl := tl1, calls := [], out := .diverged }
-      | .stop =>
-        let t2 := { p.t with finished := p.t.finished || p.t.offs.isEmpty, cur := p.t.cur + 1 }
-        { tl := tl.setTrack t2, calls := [], out := .ok }
-      | .ev d a k =>
-        let r := performEvent tl1 p.t d a k
-        if r.raised then { tl := r.tl, calls := r.calls, out := .raised }
-        else match r.tl.find tid with
-          | none => { tl := r.tl, calls := r.calls, out := .ok }
-          | some t3 =>
-            let t4 := if r.stopped then { t3 with finished := t3.finished || t3.offs.isEmpty } else t3
-            { tl := r.tl.setTrack { t4 with cur := t4.cur + 1 }, calls := r.calls, out := .ok }
-    else { tl := tl.setTrack { t with cur := t.cur + 1 }, calls := [], out := .ok }
+      afterPull tl tid (Track.pullLoop W tl.q (t.fuel tl.q) t .stop)
+    else { tl := endTick tl tid false, calls := [], out := .ok }
 
 structure TickRes where
   tl : TL
@@ -379,41 +415,52 @@ def fireActions (tl : TL) : TL :=
   let tl1 := due.foldl fireOne tl
   { tl1 with actions := tl.actions.filter (fun a => ! PAct.due tl a) }
 
+/-- `if track.is_finished and track.remove_when_done and track in self.tracks: self.tracks.remove(track)` -/
+def dropFinished (tl : TL) (tid : Nat) : TL :=
+  match tl.find tid with
+  | some t => if t.finished ∧ t.rwd then tl.removeTrack tid else tl
+  | none => tl
+
+/-- The note-offs sent when a faulting track is removed (`track.release_notes()`). -/
+def flushOf (tl : TL) (tid : Nat) : List Call :=
+  match tl.find tid with
+  | some t => t.flushCalls
+  | none => []
+
 /-- Phase 3: `for track in self.tracks[:]` over the snapshot of ids. -/
 def phaseTracks (W : World) : TL → List Nat → TickRes
   | tl, [] => { tl := tl, calls := [], res := .ok }
   | tl, tid :: rest =>
-    let r := tickTrack W tl tid
-    match r.out with
-    | .diverged => { tl := r.tl, calls := r.calls, res := .diverged }
+    match (tickTrack W tl tid).out with
+    | .diverged => { tl := (tickTrack W tl tid).tl, calls := (tickTrack W tl tid).calls, res := .diverged }
     | .raised =>
       if tl.tolerant then
         -- tracks.remove(track); pending notes are released
-        let fl := match r.tl.find tid with
-          | some t => t.flushCalls
-          | none => []
-        let r2 := phaseTracks W (r.tl.removeTrack tid) rest
-        { tl := r2.tl, calls := r.calls ++ fl ++ r2.calls, res := r2.res }
-      else { tl := r.tl, calls := r.calls, res := .raised }
+        { tl := (phaseTracks W ((tickTrack W tl tid).tl.removeTrack tid) rest).tl,
+          calls := (tickTrack W tl tid).calls ++ flushOf (tickTrack W tl tid).tl tid ++
+                   (phaseTracks W ((tickTrack W tl tid).tl.removeTrack tid) rest).calls,
+          res := (phaseTracks W ((tickTrack W tl tid).tl.removeTrack tid) rest).res }
+      else { tl := (tickTrack W tl tid).tl, calls := (tickTrack W tl tid).calls, res := .raised }
     | .ok =>
-      let tl1 := match r.tl.find tid with
-        | some t => if t.finished ∧ t.rwd then r.tl.removeTrack tid else r.tl
-        | none => r.tl
-      let r2 := phaseTracks W tl1 rest
-      { tl := r2.tl, calls := r.calls ++ r2.calls, res := r2.res }
+      { tl := (phaseTracks W (dropFinished (tickTrack W tl tid).tl tid) rest).tl,
+        calls := (tickTrack W tl tid).calls ++ (phaseTracks W (dropFinished (tickTrack W tl tid).tl tid) rest).calls,
+        res := (phaseTracks W (dropFinished (tickTrack W tl tid).tl tid) rest).res }
+
+/-- The end of `Timeline.tick`: the stop-when-done test, else the time advances by one tick.
+    (An exception that escaped a track leaves the time where it was.) -/
+def endOfTick (r : TickRes) : TickRes :=
+  match r.res with
+  | .ok =>
+    if r.tl.tracks.isEmpty ∧ r.tl.actions.isEmpty ∧ r.tl.stopWhenDone then { r with res := .stopIteration }
+    else { r with tl := { r.tl with now := r.tl.now + 1 } }
+  | _ => r
 
 /-- `Timeline.tick`. -/
 def tickTL (W : World) (tl : TL) : TickRes :=
-  let c1 := phaseOffsCalls tl.q tl.tracks
-  let tl1 := phaseOffs tl
-  let tl2 := fireActions tl1
-  let r := phaseTracks W tl2 (tl2.tracks.map Track.id)
-  match r.res with
-  | .ok =>
-    if r.tl.tracks.isEmpty ∧ r.tl.actions.isEmpty ∧ r.tl.stopWhenDone then
-      { tl := r.tl, calls := c1 ++ r.calls, res := .stopIteration }
-    else { tl := { r.tl with now := r.tl.now + 1 }, calls := c1 ++ r.calls, res := .ok }
-  | e => { tl := r.tl, calls := c1 ++ r.calls, res := e }
+  { tl := (endOfTick (phaseTracks W (fireActions (phaseOffs tl)) ((fireActions (phaseOffs tl)).tracks.map Track.id))).tl,
+    calls := phaseOffsCalls tl.q tl.tracks ++
+      (endOfTick (phaseTracks W (fireActions (phaseOffs tl)) ((fireActions (phaseOffs tl)).tracks.map Track.id))).calls,
+    res := (endOfTick (phaseTracks W (fireActions (phaseOffs tl)) ((fireActions (phaseOffs tl)).tracks.map Track.id))).res }
 
 /-- A step of a history: an API call or a tick. -/
 inductive Step where
